@@ -4,6 +4,7 @@ import (
 	"fmt"
 	"go/token"
 	"go/types"
+	"strings"
 
 	"golang.org/x/tools/go/ssa"
 )
@@ -27,6 +28,26 @@ func checkC16(r *Run) {
 	ruleLevelTables(r, p)                   // the level part is rendered from ParseLevel of the event's level text
 	ruleConsoleMarshal(r, p)
 	ruleConstructorSetsConfigOnly(r, p, "CONFIG")
+	ruleRawTimeTextOnlyOnParseError(r, p, "TIMELOC")
+	{
+		// element accesses and slicings in the console's small text helpers (the sort callbacks of
+		// writeFields/orderFields index inside sort.Search/sort.Slice and are out of this rule's reach)
+		var fns []*ssa.Function
+		for _, f := range p.ModFns {
+			if pkgRel(f) != "" || !strings.HasPrefix(p.Pos(f.Pos()), "console.go:") {
+				continue
+			}
+			root := f
+			for root.Parent() != nil {
+				root = root.Parent()
+			}
+			if root.Name() == "writeFields" || root.Name() == "orderFields" {
+				continue
+			}
+			fns = append(fns, f)
+		}
+		ruleConsumerBounds(r, p, "A23c", fns)
+	}
 	if pb := r.Use("B"); pb != nil {
 		// binary build: what ConsoleWriter is given is the decoder's text of the event
 		ruleDecodedTimestampLayout(r, pb, "TSFMT")
